@@ -900,6 +900,8 @@ static long run_one(int w, long k1, long k2)
 	int st = W_->op(&c);
 	int fired = vf_fail_fired();
 	long n = vf_alloc_calls();
+	char vf_fail_kinds_saved[8];
+	snprintf(vf_fail_kinds_saved, sizeof vf_fail_kinds_saved, "%s", vf_fail_kinds());
 	vf_fail_plan(0, 0);
 	mc_phase = "after-op";
 	snprintf(sigbuf, sizeof sigbuf, "%s", W_->kind);
@@ -919,7 +921,25 @@ static long run_one(int w, long k1, long k2)
 		else if (baseline[w] && strcmp(baseline[w], sb_str(&c.res)))
 		{
 			char sig[128];
-			snprintf(sig, sizeof sig, "%s:wrong-result-reported-as-success", W_->kind);
+			/* narrow predicate of the known finding (serializer ignores failed print-buffer growth):
+			 * every injected failure hit a realloc, and the text is the expected one with bytes
+			 * missing - nothing altered, nothing added.  Anything else gets its own signature. */
+			const char *kinds = vf_fail_kinds_saved;
+			int only_realloc = kinds[0] != 0;
+			for (const char *q = kinds; *q; q++)
+				only_realloc &= *q == 'r';
+			const char *g = sb_str(&c.res), *e = baseline[w];
+			while (*g && *e)
+			{
+				if (*g == *e)
+					g++;
+				e++;
+			}
+			int hole = *g == 0;
+			if (only_realloc && hole)
+				snprintf(sig, sizeof sig, "%s:wrong-result-reported-as-success", W_->kind);
+			else
+				snprintf(sig, sizeof sig, "%s:altered-result-reported-as-success", W_->kind);
 			mc_violation(sig, "with allocation %ld%s failing the operation reports success but its result differs: got %.300s ... expected %.300s", k1,
 			             k2 ? " (and a second one)" : "", sb_str(&c.res), baseline[w]);
 		}
